@@ -34,29 +34,51 @@ def gen_term(rnd, depth, want_len=None):
         if rnd.random() < 0.75:
             return {"op": "var", "v": rnd.choice(list(VARS))}
         n = rnd.choice([1, 1, 2, 3])
-        return {"op": "const", "c": [rnd.randint(-2, 3) for _ in range(n)], "form": rnd.choice(["list", "num", "sparse"])}
+        # (a 1 by 1 SPARSE constant is neither documented as a scalar nor refused consistently: not generated)
+        return {"op": "const", "c": [rnd.randint(-2, 3) for _ in range(n)], "form": rnd.choice(["list", "num", "sparse"] if n > 1 else ["list", "num"])}
     k = rnd.choice(["neg", "add", "add", "sub", "smul", "smul", "mmul", "mmul", "idx", "sum", "abs", "max", "min", "max1", "min1"])
+    def sub():
+        # modeling functions applied to pure constants are evaluated by Python / cvxopt.matrix: keep a variable below every operator
+        for _ in range(20):
+            u = gen_term(rnd, depth - 1)
+            if has_var(u):
+                return u
+        return {"op": "var", "v": rnd.choice(list(VARS))}
     if k in ("neg", "abs", "sum", "max1", "min1"):
-        return {"op": k, "a": gen_term(rnd, depth - 1)}
+        return {"op": k, "a": sub()}
     if k in ("add", "sub"):
         return {"op": k, "a": gen_term(rnd, depth - 1), "b": gen_term(rnd, depth - 1), "swap": rnd.random() < 0.3}
     if k == "smul":
-        return {"op": "smul", "k": rnd.choice([-2, -1, 2, 3, 1]), "a": gen_term(rnd, depth - 1), "right": rnd.random() < 0.3,
+        return {"op": "smul", "k": rnd.choice([-2, -1, 2, 3, 1]), "a": sub(), "right": rnd.random() < 0.3,
                 "form": rnd.choice(["int", "float", "1x1"])}
     if k == "mmul":
-        a = gen_term(rnd, depth - 1)
+        a = sub()
         c = rnd.choice([1, 2, 3])
         r_ = rnd.choice([1, 1, 2, 3])
-        return {"op": "mmul", "M": [[rnd.randint(-2, 2) for _ in range(c)] for _ in range(r_)], "a": a, "sparse": rnd.random() < 0.4}
+        M = [[rnd.randint(-2, 2) for _ in range(c)] for _ in range(r_)]
+        if r_ == 1 and c == 1 and M[0][0] == 0:
+            M[0][0] = 2
+        return {"op": "mmul", "M": M, "a": a, "sparse": rnd.random() < 0.4}
     if k == "idx":
-        return {"op": "idx", "ix": rand_index(rnd, 3), "a": gen_term(rnd, depth - 1)}
+        return {"op": "idx", "ix": rand_index(rnd, 3), "a": sub()}
     n = rnd.randint(2, 3)
-    return {"op": k, "args": [gen_term(rnd, depth - 1) for _ in range(n)]}
+    args = [gen_term(rnd, depth - 1) for _ in range(n)]
+    if not any(has_var(a) for a in args):
+        args[rnd.randrange(n)] = {"op": "var", "v": rnd.choice(list(VARS))}      # max/min of constants only is Python's built-in
+    for a in args:
+        if a["op"] == "const" and a.get("form") == "sparse":
+            a["form"] = "list"       # documented arguments of max/min: numbers, dense 'd' matrices with one column, variables, functions
+    return {"op": k, "args": args}
 
 
 def clean(t):
     if isinstance(t, dict):
-        return {k: clean(v) for k, v in t.items() if k not in ("form", "swap", "right", "sparse", "asmatrix")}
+        d = {k: clean(v) for k, v in t.items() if k not in ("form", "swap", "right", "sparse", "asmatrix")}
+        if t.get("op") == "const":
+            d["sp"] = t.get("form") == "sparse"
+        if t.get("op") == "mmul":
+            d["sp"] = bool(t.get("sparse"))
+        return d
     if isinstance(t, list):
         return [clean(v) for v in t]
     return t
@@ -137,16 +159,40 @@ def has_var(t):
 
 
 def _job(args):
-    import cvxopt.modeling as m
-    from cvxopt import matrix
+    from harness import isolate
     seed, n, depth = args
     rnd = random.Random(seed)
     out = []
-    while len(out) < n:
+    batch = []
+    while len(out) + len(batch) < n:
         t = gen_term(rnd, rnd.randint(1, depth))
         if not has_var(t):
             continue                      # pure constants are evaluated by Python / cvxopt.matrix, not by the modeling layer
-        envs = gen_envs(rnd)
+        batch.append((t, gen_envs(rnd)))
+        if len(batch) == 40 or len(out) + len(batch) >= n:
+            st, res = isolate.run_isolated(_cases, batch, timeout=60)
+            if st == "ok":
+                out += res
+            else:
+                # find the culprit one by one
+                for case in batch:
+                    st1, res1 = isolate.run_isolated(_cases, [case], timeout=15)
+                    if st1 == "ok":
+                        out += res1
+                    else:
+                        out.append({"t": case[0], "envs": case[1], "obs": {"err": None, "crash": "%s:%s" % (st1, res1)}})
+            batch = []
+    return out
+
+
+def _cases(batch):
+    return [_one_case(t, envs) for t, envs in batch]
+
+
+def _one_case(t, envs):
+    import cvxopt.modeling as m
+    from cvxopt import matrix
+    if True:
         V = {v: m.variable(k, v) for v, k in VARS.items()}
         obs = {"err": None}
         try:
@@ -182,8 +228,7 @@ def _job(args):
                 obs["noalias"] = [float(a) for a in val2] == vals[-1]
         except Exception as e:
             obs["err"] = type(e).__name__
-        out.append({"t": t, "envs": envs, "obs": obs})
-    return out
+        return {"t": t, "envs": envs, "obs": obs}
 
 
 def shape_class(t):
@@ -246,6 +291,10 @@ def run(tier, seed, replay=None):
         o = c["obs"]
         ck.nontrivial(shape_class(c["t"]))
         bad = None
+        if o.get("crash"):
+            ck.violation("modeling|hang-or-crash|%s" % o["crash"].split(":")[0], "building or evaluating the expression did not terminate / killed the interpreter (%s): %s" % (
+                o["crash"], json.dumps(clean(c["t"]))[:300]), {"case": c})
+            continue
         if e["defined"] and not e["really"]:
             ck.machinery_errors.append("specification: a term classified convex/concave violates the midpoint inequality: %r" % clean(c["t"]))
             continue
